@@ -348,6 +348,12 @@ func (self Value) Interface(opts *Options) (interface{}, error) {
 		return self.uint()
 	case proto.DOUBLE:
 		return self.float64()
+	case proto.FLOAT:
+		v, n := protowire.BinaryDecoder{}.DecodeFloat32(rt.BytesFrom(self.v, int(self.l), int(self.l)))
+		if n < 0 {
+			return nil, errNode(meta.ErrRead, "Value.Interface: invalid float", nil)
+		}
+		return v, nil
 	case proto.BYTE:
 		return self.binary()
 	case proto.STRING:
